@@ -449,7 +449,165 @@ def replay_one_shot(c):
 
 
 UNITS = [Walk(False), Walk(True), EvaluatorReset("evaluate"), EvaluatorReset("qsimplify")] + [OneShot(w) for w in ("eqr", "sub", "qs", "ev")]
-LEVEL = "proof"
+# ------------------------------------------------------------------------------------------ bounded stand-in: call histories
+def bounded(tier, seed):
+    """Random interleavings of calls on ONE environment's shared walkers -- substitute (some maps make a division by zero or an ill-typed node appear
+    mid-walk, also inside quantifier bodies), simplify, type inference, free variables, fluent names, quantifier removal (objects are added to the problem
+    between calls) -- each call compared with the same call made on a FRESH environment (the expressions are rebuilt there from a recipe).  Labelled
+    bounded: the proof above covers DagWalker.walk and the one-shot walkers' entry points; this layer covers per-walker state the units do not model."""
+    import random
+    import warnings
+    from unified_planning.environment import Environment
+    from unified_planning.shortcuts import (Problem, Fluent, BoolType, IntType, UserType, Object, Variable, Exists, Forall, And, Or, Not, Equals, LT, LE, Plus,
+                                            Minus, Times, Div, Int)
+    from unified_planning.model.walkers import ExpressionQuantifiersRemover
+    n_hist, n_calls = (60, 8) if tier == "quick" else (1200, 12)
+    rng = random.Random(seed * 7919 + 14)
+
+    class World:
+        def __init__(self):
+            self.env = Environment()
+            tm = self.env.type_manager
+            self.T = tm.UserType("T")
+            self.pr = Problem("w", self.env)
+            self.objs = [Object(f"o{i}", self.T, self.env) for i in range(2)]
+            self.pr.add_objects(self.objs)
+            self.p = Fluent("p", tm.BoolType(), environment=self.env, x=self.T)
+            self.q = Fluent("q", tm.BoolType(), environment=self.env)
+            self.x = Fluent("x", tm.IntType(), environment=self.env)
+            self.y = Fluent("y", tm.IntType(), environment=self.env)
+            for f in (self.p, self.q, self.x, self.y):
+                self.pr.add_fluent(f)
+            self.v = Variable("v", self.T, self.env)
+            self.u = Variable("u", self.T, self.env)
+            self.eqr = ExpressionQuantifiersRemover(self.env)
+
+        def build(self, r):
+            em = self.env.expression_manager
+            k = r[0]
+            if k == "q":
+                return em.FluentExp(self.q)
+            if k == "p":
+                return em.FluentExp(self.p, (self.build(r[1]),))
+            if k == "x":
+                return em.FluentExp(self.x)
+            if k == "y":
+                return em.FluentExp(self.y)
+            if k == "int":
+                return em.Int(r[1])
+            if k == "obj":
+                return em.ObjectExp(self.objs[r[1] % len(self.objs)])
+            if k == "var":
+                return em.VariableExp(self.v if r[1] == 0 else self.u)
+            args = [self.build(a) for a in r[1:]] if k not in ("exists", "forall") else None
+            if k in ("exists", "forall"):
+                body = self.build(r[2])
+                return (em.Exists if k == "exists" else em.Forall)(body, self.v if r[1] == 0 else self.u)
+            return {"and": em.And, "or": em.Or, "not": em.Not, "lt": em.LT, "le": em.LE, "eq": em.Equals, "plus": em.Plus, "minus": em.Minus, "times": em.Times,
+                    "div": em.Div}[k](*args)
+
+    def num(d):
+        r = rng.random()
+        if d <= 0 or r < 0.4:
+            return rng.choice([("x",), ("y",), ("int", rng.randint(0, 6))])
+        return (rng.choice(["plus", "minus", "times", "div"]), num(d - 1), num(d - 1))
+
+    def term(scope):
+        c = [("obj", 0), ("obj", 1)] + [("var", i) for i in scope]
+        return rng.choice(c)
+
+    def boolean(d, scope=()):
+        r = rng.random()
+        if d <= 0 or r < 0.3:
+            return rng.choice([("q",), ("p", term(scope)), (rng.choice(["lt", "le"]), num(1), num(1))])
+        if r < 0.5:
+            return (rng.choice(["and", "or"]), boolean(d - 1, scope), boolean(d - 1, scope))
+        if r < 0.6:
+            return ("not", boolean(d - 1, scope))
+        i = rng.randint(0, 1)
+        return (rng.choice(["exists", "forall"]), i, boolean(d - 1, tuple(scope) + (i,)))
+
+    def call(w, c):
+        kind = c[0]
+        if kind == "add_object":
+            w.objs.append(Object(f"o{len(w.objs)}", w.T, w.env))
+            w.pr.add_object(w.objs[-1])
+            return "ok"
+        e = w.build(c[1])
+        if kind == "substitute":
+            subs = {w.build(k_): w.build(v_) for k_, v_ in c[2]}
+            return str(e.substitute(subs))
+        if kind == "simplify":
+            return str(e.simplify())
+        if kind == "type":
+            return str(w.env.type_checker.get_type(e))
+        if kind == "free":
+            return str(sorted(x_.name for x_ in w.env.free_vars_oracle.get_free_variables(e)))
+        if kind == "names":
+            return str(sorted(w.env.free_vars_extractor.get(e), key=str)) if hasattr(w.env, "free_vars_extractor") else str(e)
+        if kind == "add_object":
+            w.objs.append(Object(f"o{len(w.objs)}", w.T, w.env))
+            w.pr.add_object(w.objs[-1])
+            return "ok"
+        if kind == "unquantify":
+            return str(w.eqr.remove_quantifiers(e, w.pr))
+        raise AssertionError(kind)
+
+    failures, evals, nontrivial = [], 0, set()
+    with warnings.catch_warnings():
+        warnings.simplefilter("ignore")
+        for h in range(n_hist):
+            calls = []
+            for _ in range(n_calls):
+                kind = rng.choice(["substitute", "substitute", "substitute", "simplify", "type", "free", "unquantify", "add_object"])
+                e = boolean(3)
+                if kind == "substitute" and rng.random() < 0.5:
+                    # a quantified expression whose body divides by a fluent: a map sending that fluent to 0 fails INSIDE the quantifier body,
+                    # another map succeeds -- the shape in which state left behind by a failed call meets a later call
+                    i_ = rng.randint(0, 1)
+                    e = (rng.choice(["exists", "forall"]), i_, (rng.choice(["and", "or"]), boolean(1, (i_,)),
+                                                                 (rng.choice(["lt", "le"]), ("int", rng.randint(0, 6)), ("div", ("int", rng.randint(1, 6)), rng.choice([("x",), ("y",)])))))
+                if kind == "substitute":
+                    pairs = []
+                    for _k in range(rng.randint(1, 2)):
+                        key = rng.choice([("x",), ("y",), ("q",), ("p", ("obj", rng.randint(0, 1)))])
+                        if key[0] in ("x", "y"):
+                            val = rng.choice([("int", 0), ("int", rng.randint(1, 5)), ("y",) if key[0] == "x" else ("x",), ("q",)])      # 0 -> division by zero; q -> ill-typed
+                        else:
+                            val = rng.choice([("q",), ("not", ("q",)), ("p", ("obj", 1)), ("int", 3)])
+                        pairs.append((key, val))
+                    calls.append((kind, e, pairs))
+                else:
+                    calls.append((kind, e))
+            shared = World()
+            for i, c in enumerate(calls):
+                def run(w):
+                    try:
+                        return ("ok", call(w, c))
+                    except Exception as ex:  # noqa
+                        return ("raise", type(ex).__name__)
+                got = run(shared)
+                fresh = World()
+                for c2 in calls[:i]:
+                    if c2[0] == "add_object":          # the arguments of the call (the problem's objects) are part of the call
+                        call(fresh, c2)
+                want = run(fresh)
+                evals += 1
+                if got[0] == "raise":
+                    nontrivial.add((h, i))
+                if got != want:
+                    failures.append({"what": f"call {i} ({c[0]}) after a history of {i} calls ({sum(1 for c_ in calls[:i] if c_[0] != 'add_object')} walker calls, "
+                                             f"some failing) differs from the same call on a fresh environment [{c[0]}]",
+                                     "concrete": {"history": [str(c_)[:160] for c_ in calls[:i + 1]]}, "observed": {"shared": got, "fresh": want}})
+                    break
+            if len(failures) >= 4:
+                break
+    return {"evaluations": evals, "distinct_nontrivial": len(nontrivial), "failures": failures,
+            "rule": f"{n_hist} histories of {n_calls} calls on one environment (substitute incl. failing maps and quantified expressions, simplify, type inference, free "
+                    f"variables, quantifier removal with objects added in between), each call compared with the same call on a fresh environment; non-trivial = a call that raises"}
+
+
+LEVEL = "other"
 EXPLANATION = __doc__
 TRUSTED = T.TRUSTED + ["handlers do not touch the walker's stack/memoization and return the fold value when given the "
                        "fold values of the children (determinism); any handler may raise",
